@@ -68,16 +68,19 @@ def run(chk, program, tier):
                 chk.violation('FE-FUNNEL', f"{name}::reaches-decode@n={n}", file=DEC, line=line, func=meth, expected='_decode called', found=r.warnings or 'returned early')
                 continue
             if meth in ('decode_tcp', 'decode_usb', 'decode_yacht_devices_string'):
-                chk.check(W.int_matches(r.header_arg, W.ID_BITS), 'FE-ROLE', f"{name}::identifier@n={n}", file=DEC, line=line, func=meth,
+                W.judge_int(chk, r.header_arg, W.ID_BITS, 'FE-ROLE', f"{name}::identifier@n={n}", file=DEC, line=line, func=meth,
                           expected='_extract_header(id[0:29])', found=repr(r.header_arg))
                 exp = {'pgn': [('H.pgn', k) for k in range(18)], 'priority': [('H.prio', k) for k in range(3)], 'source': [('H.src', k) for k in range(8)], 'destination': [('H.dst', k) for k in range(8)]}
             else:
                 exp = {'pgn': [('pgn', k) for k in range(18)], 'priority': [('prio', k) for k in range(3)], 'source': [('src', k) for k in range(8)], 'destination': [('dst', k) for k in range(8)]}
             got = {'pgn': a[0], 'priority': a[1], 'source': a[2], 'destination': a[3]}
             for role in exp:
-                chk.check(W.int_matches(got[role], exp[role]), 'FE-ROLE', f"{name}::{role}@n={n}", file=DEC, line=line, func=meth,
+                W.judge_int(chk, got[role], exp[role], 'FE-ROLE', f"{name}::{role}@n={n}", file=DEC, line=line, func=meth,
                           expected=B.show_vec(exp[role]), found=repr(got[role]), detail='positional parameter of _decode(pgn, priority, source, destination, timestamp, data, raw[, already_combined])')
             data = a[5] if len(a) > 5 else None
+            if not W.followed(data) or (isinstance(data, A.ABytes) and any(x_[0] == 'u' for x_ in data.items)):
+                chk.unknown('FE-ORIENT', f"{name}@n={n}", f"the data argument was not followed by the interpreter: {data!r}", DEC, line)
+                continue
             chk.check(isinstance(data, A.ABytes) and data.items == rev, 'FE-ORIENT', f"{name}@n={n}", file=DEC, line=line, func=meth,
                       expected='frame data reversed exactly once', found=W.describe_items(data.items)[:3] if isinstance(data, A.ABytes) else repr(data))
             # already_combined
